@@ -8,7 +8,7 @@ Ghost accessors (`ghost()`, `accrued_snapshot`) never mutate anything.
 import compat  # noqa: F401
 import numpy as np
 from gymnasium.spaces import Discrete, MultiDiscrete
-from abmarl.sim import PrincipleAgent, Agent, DynamicOrderSimulation
+from abmarl.sim import PrincipleAgent, ObservingAgent, ActingAgent, Agent, DynamicOrderSimulation
 
 
 def encode_obs(o):
@@ -70,7 +70,16 @@ class StubSim(DynamicOrderSimulation):
                                                        else MultiDiscrete([1000] * 4)),
                                     action_space=Discrete(10), **extra)
             else:
-                agents[aid] = PrincipleAgent(id=aid)
+                # a non-learning entity: a PrincipleAgent, or (script key `halves`) one that only observes or only acts -
+                # an agent in the managers' sense is one that does BOTH (is_agent)
+                half = (script.get("halves") or [0] * self.n)[i]
+                if half == 1:
+                    agents[aid] = ObservingAgent(id=aid, observation_space=(Discrete(10 ** 8) if discrete
+                                                                            else MultiDiscrete([1000] * 4)))
+                elif half == 2:
+                    agents[aid] = ActingAgent(id=aid, action_space=Discrete(10))
+                else:
+                    agents[aid] = PrincipleAgent(id=aid)
         self.agents = agents
         self.finalize()
         self.ep = 0
